@@ -3,6 +3,7 @@ import BleveModel.Drv.C07
 import BleveModel.Drv.C06
 import BleveModel.Drv.C15
 import BleveModel.Drv.C10
+import BleveModel.Drv.C09
 
 open Bleve.Proto
 
@@ -26,6 +27,7 @@ def main (args : List String) : IO UInt32 := do
   match args with
   | ["c07"] => loop stdin stdout Bleve.Drv.C07.step; stdout.flush; return 0
   | ["c10"] => loop stdin stdout Bleve.Drv.C10.step; stdout.flush; return 0
+  | ["c09"] => loop stdin stdout Bleve.Drv.C09.step; stdout.flush; return 0
   | ["c06"] => loop stdin stdout Bleve.Drv.C06.step; stdout.flush; return 0
   | ["c15"] => loopS stdin stdout ({} : Bleve.Drv.C15.S) Bleve.Drv.C15.step; stdout.flush; return 0
   | _ => IO.eprintln "usage: drv <driver>"; return 2
